@@ -50,13 +50,13 @@ def ec_weak_priv_spec(r, c, k_first=None):
   m, desc = mults[r.randrange(len(mults))]
   u = r.random()
   vmax = min(2**32 - 1, (int(c.n) - 1) // m)
-  if k_first and u < 0.15:
+  if k_first and u < 0.35:
     # the top of the 32-bit range: the last giant step of the documented
     # algorithm (whether it is needed depends on the list length)
     ts, t = lib_table_params(c, k_first)
     v = 2**32 - 1 - r.randrange(0, max(2, ts // 2))
     edge = "j=top,ts=%d" % ts
-  elif k_first and u < 0.50:
+  elif k_first and u < 0.65:
     ts, t = lib_table_params(c, k_first)
     jmax = (2**32) // t
     j = r.choice([0, 1, 2, jmax - 1, jmax, jmax + 1, r.randint(0, jmax)])
@@ -64,7 +64,7 @@ def ec_weak_priv_spec(r, c, k_first=None):
                     r.randint(0, ts)])
     v = j * t + off
     edge = "j=%d,off=%d,ts=%d" % (j, off, ts)
-  elif u < 0.60:
+  elif u < 0.78:
     v = r.choice([1, 2, 3, 2**16, 2**31, 2**32 - 1, 2**32 - 2, 0xFFFF0000,
                   0x01234567])
     edge = "const"
@@ -110,6 +110,8 @@ def _ec_pool(r, f, focus, max_diff):
   enabled = set(r.sample(fams, r.randint(lo, 5)))
   if focus == "C10":
     enabled |= {"weak_priv", "small_diff"}
+  if focus == "C17" and r.random() < 0.6:
+    enabled |= {"weak_priv"}
   pair_id = 0
   if "weak_priv" in enabled:
     # on every curve of the pool, or on one only (then a mixed-curve batch has
